@@ -65,7 +65,7 @@ func init() {
 	vrt.Register(&vrt.Prop{
 		ID: "C19", Level: "exploration",
 		Rule: "case = a real loopback mesh of 2-6 parties x 1-4 connections per pair: leader Create first, then Join in a PRNG order with PRNG delays, all Connect calls concurrent with PRNG start delays (every 32nd mesh has one party start 6.5 s late - 3-12 s in thorough - and every 32nd stays idle that long before its connections are used); a verif hook at five points of p2p/network.go (before Accept, after the accepted hello, between need--/Broadcast and addPeer, before Dial, after the dial hello) logs the event order and injects 0-5 ms PRNG delays. " +
-			"Oracle: at the moment a party's own Connect returns nil, and again after all Connect calls returned, every party lists every other party exactly once with exactly numConns non-nil connections, and a unique token sent on i.Peers[j].Conns[k] arrives on j.Peers[i].Conns[k] and nowhere else, in both directions (exactly once, no loss, no cross-wiring). A Connect error is a violation; a quiescent deadlock (all Connect goroutines parked, no hook event for 6 s, confirmed by two goroutine dumps) is a violation, any other timeout inconclusive. Distinct = hash of the observed hook-event order.",
+			"Oracle: at the moment a party's own Connect returns nil, and again after all Connect calls returned, every party lists every other party exactly once with exactly numConns non-nil connections, and a unique token sent on i.Peers[j].Conns[k] arrives on j.Peers[i].Conns[k] and nowhere else, in both directions (exactly once, no loss, no cross-wiring); in half of the meshes every party also sends on all its connections the moment its own Connect returns, and that early data must arrive first. A Connect error is a violation; a quiescent deadlock (all Connect goroutines parked, no hook event for 6 s, confirmed by two goroutine dumps) is a violation, any other timeout inconclusive. Distinct = hash of the observed hook-event order.",
 		Assumptions: []string{"loopback TCP; the kernel's behaviour can be varied only in timing", "the leader's Create precedes every Join, as Join requires"},
 		NumCases: func(t string) int {
 			if t == "thorough" {
@@ -191,6 +191,12 @@ func runC19(cs *vrt.Case) {
 		desc["idle_before_use_ms"] = long.Milliseconds()
 		cs.Count("meshes_idle_before_use", 1)
 	}
+	early := r.Bool() // every party uses its connections the moment its own Connect returns
+	earlyNonce := r.U64()
+	if early {
+		desc["data_sent_as_soon_as_connect_returns"] = true
+		cs.Count("meshes_used_before_all_connects_returned", 1)
+	}
 	for i := 0; i < P; i++ {
 		go func(i int) {
 			time.Sleep(delays[i])
@@ -200,6 +206,23 @@ func runC19(cs *vrt.Case) {
 				// what this party can see at the moment its own Connect
 				// returns (the application starts using the mesh now)
 				snaps[i] = c19Snapshot(nets[i], i)
+				if early {
+					// ... and uses it at once: data sent on a connection the
+					// moment Connect returned must arrive, even if the peer's
+					// own setup is still in progress
+					for _, pj := range nets[i].Peers {
+						if pj.ID == i {
+							continue
+						}
+						for k := 0; k < len(pj.Conns) && k < K; k++ {
+							if c := pj.Conns[k]; c != nil {
+								if err := c.SendString(fmt.Sprintf("early %d->%d #%d %x", i, pj.ID, k, earlyNonce)); err == nil {
+									c.Flush()
+								}
+							}
+						}
+					}
+				}
 			}
 			done <- i
 		}(i)
@@ -344,6 +367,16 @@ func runC19(cs *vrt.Case) {
 						tmu.Lock()
 						bad = append(bad, fmt.Sprintf("send %d->%d #%d: %v", i, j, k, err))
 						tmu.Unlock()
+					}
+				}
+				for k := 0; k < K && early; k++ {
+					got, err := pj.Conns[k].ReceiveString()
+					want := fmt.Sprintf("early %d->%d #%d %x", j, i, k, earlyNonce)
+					if err != nil || got != want {
+						tmu.Lock()
+						bad = append(bad, fmt.Sprintf("party %d, connection %d to peer %d: the data peer %d sent as soon as its Connect returned did not arrive: received %q (%v), expected %q", i, k, j, j, got, err, want))
+						tmu.Unlock()
+						return
 					}
 				}
 				for k := 0; k < K; k++ {
